@@ -13,7 +13,7 @@ import (
 func init() {
 	register(&Rule{ID: "C15.ROOT", Min: 1, Doc: "the path matched against `paths` globs is relative to the project root, not to the working directory", Run: runC15Root})
 	register(&Rule{ID: "C15.ABSJOIN", Min: 2, Doc: "a path is joined to the working directory only when it is not absolute", Run: runC15AbsJoin})
-	register(&Rule{ID: "C15.PURE", Min: 5, Doc: "filterErrors is an order-preserving filter without side effects", Run: runC15Pure})
+	register(&Rule{ID: "C15.PURE", Min: 7, Doc: "filterErrors is an order-preserving filter without side effects", Run: runC15Pure})
 	register(&Rule{ID: "C15.EXIT", Min: 5, Doc: "exit status table of Command.Main: 2 flag error, 0 help/version/no diagnostics, 3 fatal, 1 diagnostics", Run: runC15Exit})
 	register(&Rule{ID: "C15.PAT", Min: 2, Doc: "ignore patterns are compiled and applied one by one", Run: runC15Pat})
 }
@@ -34,7 +34,7 @@ func runC15Root(c *Ctx) {
 		arg := e.Site.Common().Args[1]
 		construct := FuncName(e.Caller.Func) + "|path given to (*Config).PathConfigs"
 		// the value must (also) come from filepath.Rel whose base derives from (*Project).RootDir
-		relOK := false
+		relOK, targetBad := false, false
 		var raw []string
 		for _, o := range p.Origins(arg, FlowOpts{MaxDepth: 8}) {
 			switch o.Kind {
@@ -53,6 +53,9 @@ func runC15Root(c *Ctx) {
 					if rootDerived(p, call.Call.Args[0], 0) {
 						relOK = true
 					}
+					if !relTargetIsWholePath(call.Call.Args[1], 0) {
+						targetBad = true
+					}
 				}
 			case OParam:
 				raw = append(raw, FuncName(o.Fn)+" parameter "+o.Val.Name())
@@ -60,6 +63,10 @@ func runC15Root(c *Ctx) {
 		}
 		if !relOK {
 			c.bad(construct, e.Site.Pos(), "the path does not come from filepath.Rel(<project root>, ...): `paths` globs are matched against a path that depends on the working directory")
+			continue
+		}
+		if targetBad {
+			c.bad(construct, e.Site.Pos(), "what filepath.Rel makes relative to the project root is not the whole path of the file (made absolute at most): the `paths` globs are matched against something else than the file's path")
 			continue
 		}
 		// the raw (cwd-relative) path may only be passed when there is no project or Rel failed
@@ -345,6 +352,28 @@ func runC15Pure(c *Ctx) {
 			}
 		})
 	}
+	// dropped iff matched, decided on paths: within one iteration of the loop over the input the diagnostic is appended
+	// exactly when no IgnorePatterns.Match on it (directly or in a helper that returns that verdict) came out true, the loop
+	// has no side exit, and the input is handed back as is only when both pattern sets are known to be empty
+	problems, nIffApp, nInput := filterDropsIffMatched(fn, errs)
+	var iff, short []string
+	for _, pr := range problems {
+		if strings.HasPrefix(pr, "the input is returned unfiltered") {
+			short = append(short, pr)
+		} else {
+			iff = append(iff, pr)
+		}
+	}
+	if len(iff) > 0 {
+		c.bad("(*Linter).filterErrors|dropped iff matched", fn.Pos(), strings.Join(iff, "; "))
+	} else {
+		c.ok("(*Linter).filterErrors|dropped iff matched", fn.Pos(), fmt.Sprintf("%d append(s) of the current diagnostic, reached exactly on the paths on which no pattern matched it; the loop is left only at its header", nIffApp))
+	}
+	if len(short) > 0 {
+		c.bad("(*Linter).filterErrors|unfiltered only without patterns", fn.Pos(), strings.Join(short, "; "))
+	} else {
+		c.ok("(*Linter).filterErrors|unfiltered only without patterns", fn.Pos(), fmt.Sprintf("%d return(s) of the input itself, each under len == 0 of both pattern sets", nInput))
+	}
 	if matches >= 2 {
 		c.ok("(*Linter).filterErrors|patterns consulted", fn.Pos(), fmt.Sprintf("%d IgnorePatterns.Match calls (command line and per-path config)", matches))
 	} else {
@@ -601,7 +630,19 @@ func runC15Pat(c *Ctx) {
 			}
 		}
 	})
+	// ... and says yes iff some pattern matches: every return is true exactly after a MatchString on the message that came
+	// out true, and the loop over the patterns is not left before a match
+	anyWhy := ""
 	if n == 1 {
+		for i, q := range m.Params {
+			if nm := namedOf(q.Type()); nm != nil && nm.Obj().Name() == "Error" {
+				anyWhy = returnsSomePatternMatched(m, i)
+			}
+		}
+	}
+	if n == 1 && anyWhy != "" {
+		c.bad("(IgnorePatterns).Match|matches the message", m.Pos(), "the verdict is not `some pattern matches the message`: "+anyWhy)
+	} else if n == 1 {
 		c.ok("(IgnorePatterns).Match|matches the message", m.Pos(), "each pattern is matched against Error.Message")
 	} else {
 		c.bad("(IgnorePatterns).Match|matches the message", m.Pos(), "patterns are not matched one by one against the diagnostic's message")
